@@ -154,7 +154,9 @@ func runCase(id string, t *ctype, r *rep, a *aval, ver primitive.ProtocolVersion
 	}
 	src := r.mk(a)
 	if gty, ok := gtyOf(t, r.gt); ok && len(a.coq()) < 3000 && !strings.Contains(r.String(), "structmap") {
-		rec.SrcGty, rec.SrcG = gty, gvalOf(t, r.gt, src)
+		if rec.SrcGty, rec.SrcG = gty, gvalOf(t, r.gt, src); !inUniverse(rec.SrcG) {
+			rec.SrcGty, rec.SrcG = "", ""
+		}
 	}
 	var enc []byte
 	var eerr error
@@ -185,7 +187,9 @@ func runCase(id string, t *ctype, r *rep, a *aval, ver primitive.ProtocolVersion
 		rec.DecNull = wasNull
 		d := abs(t, reflect.ValueOf(&dest).Elem())
 		if rec.SrcGty != "" {
-			rec.DecG = gvalOf(t, tIface, reflect.ValueOf(&dest).Elem())
+			if rec.DecG = gvalOf(t, tIface, reflect.ValueOf(&dest).Elem()); !inUniverse(rec.DecG) {
+				rec.DecG = ""
+			}
 		}
 		rec.DecCoq = d.canon().coq()
 		rec.RtEqual = aEqual(d, a) && (wasNull == (a.kind == "null" || enc == nil))
@@ -210,7 +214,9 @@ func runCase(id string, t *ctype, r *rep, a *aval, ver primitive.ProtocolVersion
 		rec.SameNull = wasNull
 		d := abs(t, dptr.Elem())
 		if gty, ok := gtyOf(t, dptr.Elem().Type()); ok && rec.SrcGty != "" {
-			rec.DestGty, rec.SameG = gty, gvalOf(t, dptr.Elem().Type(), dptr.Elem())
+			if rec.DestGty, rec.SameG = gty, gvalOf(t, dptr.Elem().Type(), dptr.Elem()); !inUniverse(rec.SameG) {
+				rec.DestGty, rec.SameG = "", ""
+			}
 		}
 		if wasNull {
 			// the destination holds the zero value; what the caller learns is wasNull
